@@ -18,7 +18,7 @@ RULE = ('Each run = one closed-form ODE (exp, cos, gauss, xcos, rot2d, logistic,
         'a start time and a duration; integrated with 4-5 successively halved step sizes through the real DESolver. '
         'Non-trivial = at least two halvings with error above 1e-11 relative; distinct = distinct record digest; '
         'behaviour signature = (ode, iterator, schedule kind, t0 zero/non-zero).')
-ASSUMPTIONS = ['Observed order is the overall error slope over 3+ successive halvings with error above 1e-11; required: the finest usable error lies below some coarser error times (h ratio)^p with p=0.6 (Euler) / 3.0 (RK4); one-sided, robust to sign changes of the leading error constant.',
+ASSUMPTIONS = ['Observed order is the overall error slope over 3+ successive halvings with error above 1e-11; required: the finest usable error lies below some coarser error times (h ratio)^p with p=0.7 (Euler) / 3.25 (RK4); one-sided, robust to sign changes of the leading error constant.',
                'Stage times are compared with 4 ulp tolerance.']
 COMPONENTS = {'real': ['kawin.solver.Iterators.ExplicitEulerIterator', 'kawin.solver.Iterators.RK4Iterator', 'kawin.solver.Solver.DESolver',
                        'kawin.GenericModel.GenericModel.solve'], 'stub': ['closed-form ODE probe model']}
@@ -174,7 +174,7 @@ def execute(rec):
     # an apparent order above nominal happens when the leading error term changes sign and is no violation)
     usable = [i for i, e in enumerate(errs) if e > 1e-11]
     nontrivial = len(usable) >= 3 and usable == list(range(usable[0], usable[0] + len(usable)))
-    nominal, pmin = (4.0, 3.0) if it == 'rk4' else (1.0, 0.6)
+    nominal, pmin = (4.0, 3.25) if it == 'rk4' else (1.0, 0.7)
     if nontrivial:
         # robust decay test: the finest usable error must lie below SOME coarser error scaled with h^pmin.
         # (pairwise slopes are unreliable where the leading error constant is close to a sign change.)
